@@ -41,14 +41,24 @@ def macro_body(rng: random.Random, name: str, params: list[str], callees: list[t
     return body
 
 
+def pnames(rng: random.Random, i: int, n: int, shared: bool) -> list[str]:
+    """parameter names: unique per macro, or drawn (in random order) from one small pool shared by all macros, so that
+    an argument can be spelled like another variable of the called macro"""
+    if not shared:
+        return [f"$p{i}_{k}" for k in range(n)]
+    pool = ["$a", "$b", "$c"]
+    rng.shuffle(pool)
+    return pool[:n]
+
+
 def dag_program(n: int, edges: set[tuple[int, int]], order: tuple[int, ...], rng: random.Random | None = None,
-                rich: bool = False, nparams: list[int] | None = None) -> dict:
+                rich: bool = False, nparams: list[int] | None = None, shared_names: bool = False) -> dict:
     """macros M0..Mn-1; edge (i, j): Mi calls Mj (i < j, hence acyclic); written in the given order."""
     rng = rng or random.Random(0)
     nparams = nparams or [0] * n
     macs = []
     for i in order:
-        params = [f"$p{i}_{k}" for k in range(nparams[i])]
+        params = pnames(rng, i, nparams[i], shared_names)
         callees = [(f"M{j}", nparams[j]) for (a, j) in sorted(edges) if a == i]
         macs.append((f"M{i}", params, macro_body(rng, f"M{i}", params, callees, rich)))
     g = G(rng, 1)
@@ -83,7 +93,8 @@ def order_family(max_n: int, sample: int | None, rng: random.Random) -> list[dic
 def multi_file(rng: random.Random, rich: bool = True) -> dict:
     """macros spread over main + up to 2 imported files (chain or flat imports, sub-directories)"""
     n = rng.randint(2, 5)
-    nparams = [rng.choice([0, 1, 1, 2]) for _ in range(n)]
+    nparams = [rng.choice([0, 1, 1, 2, 3]) for _ in range(n)]
+    shared = rng.random() < 0.5
     mode = rng.choice(["chain", "flat", "single"])
     nfiles = 1 if mode == "single" else rng.choice([2, 3])
     fileof = sorted(rng.randrange(nfiles) for _ in range(n))
@@ -108,7 +119,7 @@ def multi_file(rng: random.Random, rich: bool = True) -> dict:
     for f in range(nfiles):
         macs = []
         for i in order_in_file[f]:
-            params = [f"$p{i}_{k}" for k in range(nparams[i])]
+            params = pnames(rng, i, nparams[i], shared)
             callees = [(f"M{j}", nparams[j]) for (a, j) in sorted(edges) if a == i]
             macs.append((f"M{i}", params, macro_body(rng, f"M{i}", params, callees, rich)))
         imports = []
@@ -140,7 +151,7 @@ def family(rng: random.Random, thorough: bool) -> list[dict]:
         es = {e for e in [(i, j) for i in range(n) for j in range(i + 1, n)] if rng.random() < 0.5}
         order = list(range(n))
         rng.shuffle(order)
-        out.append(dag_program(n, es, tuple(order), rng, rich=True, nparams=[rng.choice([0, 1, 2]) for _ in range(n)]))
+        out.append(dag_program(n, es, tuple(order), rng, rich=True, nparams=[rng.choice([0, 1, 2, 3]) for _ in range(n)], shared_names=rng.random() < 0.6))
     return out
 
 
@@ -217,6 +228,12 @@ def compile_tree(tree: dict) -> dict:
             src = fh.read()
         comp = drive.compile_text(src, main, [lp if os.path.isabs(lp) or tree.get("lookup_relative") else os.path.join(d, lp) for lp in tree.get("lookup", [])])
         case = dict(comp)
+        case["included"] = []
+        if comp["status"] == "ok" and comp["sm"]:
+            from explorerscript.source_map import SourceMap
+            from explorerscript.included_usage_map import IncludedUsageMap
+            inc = IncludedUsageMap(SourceMap.deserialize(comp["sm"]), main)
+            case["included"] = sorted(os.path.relpath(x, os.path.dirname(main)) for x in inc.included_files)
         case["src"] = "\n".join(f"// ---- {rel}\n{text}" for rel, text in tree["files"].items())
         case["meta"] = tree.get("meta", {})
         if comp["status"] == "ok":
